@@ -161,12 +161,18 @@ def render(tag, spec):
     # declares nothing: only real top-level functions count when -run is matched against a test file)
     fake = ''.join('func %s(t *testing.T) {}\n' % f for f in tops)
     decoy_src = 'var fixture = `\n%s`\n\n/*\n%s*/\n' % (fake, fake)
+    # (nor do the file's OTHER top-level declarations - types, variables, constants, struct fields named after tests
+    # that live elsewhere: `-run` selects test functions)
+    def others(names):
+        return ''.join('type %sStore struct{ %sField int }\n\nvar %sFixture = 1\n\nconst %sLabel = "x"\n\n' % (f, f, f, f) for f in names)
+    if has_go2:
+        decoy_src += others(tops2)
     gosrc = 'package pkg\n\nimport "testing"\n\n' + ''.join('func %s(t *testing.T) {}\n' % f for f in tops if f not in tops2) + decoy_src
     w.add('fsput %s %s' % (hx('pkg/zz_verif_harness_test.go'), hx(gosrc)))
     if has_go2 and entries2:
         # the tests whose snapshots live in the second file are declared in the test file it is named after
         w.add('fsput %s %s' % (hx('pkg/%s.go' % name2),
-                               hx('package pkg\n\nimport "testing"\n\n' + ''.join('func %s(t *testing.T) {}\n' % f for f in tops2) + decoy_src.replace('fixture', 'fixture2'))))
+                               hx('package pkg\n\nimport "testing"\n\n' + ''.join('func %s(t *testing.T) {}\n' % f for f in tops2) + decoy_src.replace('fixture', 'fixture2').replace(others(tops2), others([f for f in tops if f not in tops2])))))
     texec = 0
     for t in tests:
         if t in skip_calls:
